@@ -4,7 +4,7 @@ Import ListNotations.
 From SAV.base Require Import Tree.
 From SAV.sql Require Import Params.
 
-(* ---- strings travel packed: 7 bytes per integer, little endian, with a leading 1 as end marker ---- *)
+(* ---- strings travel packed: 5 bytes per integer, little endian, with a leading 1 as end marker ---- *)
 Fixpoint unchunk (fuel : nat) (z : Z) : list N :=
   match fuel with
   | O => []
@@ -12,7 +12,7 @@ Fixpoint unchunk (fuel : nat) (z : Z) : list N :=
   end.
 Definition as_str (t : tree) : option str :=
   match as_list_of as_Z t with
-  | Some l => Some (flat_map (unchunk 8) l)
+  | Some l => Some (flat_map (unchunk 6) l)
   | None => None
   end.
 Fixpoint chunk_val (l : list N) : Z :=
@@ -22,10 +22,17 @@ Fixpoint chunks (fuel : nat) (s : str) : list tree :=
   | O => []
   | S f => match s with
            | [] => []
-           | _ => I (chunk_val (firstn 7 s)) :: chunks f (skipn 7 s)
+           | _ => I (chunk_val (firstn 5 s)) :: chunks f (skipn 5 s)
            end
   end.
 Definition of_str (s : str) : tree := L (chunks (S (length s)) s).
+
+(* the statement text is compared by length and a polynomial hash modulo the Mersenne prime 2^61 - 1
+   (the cases files would otherwise be dominated by six copies of every statement) *)
+Definition HASH_P : Z := 2305843009213693951%Z.
+Definition hash_str (s : str) : Z :=
+  fold_left (fun h c => ((h * 257 + Z.of_N c + 1) mod HASH_P)%Z) s 0%Z.
+Definition of_text (s : str) : tree := L [I (hash_str s); I (Z.of_nat (length s))].
 
 (* ---- decoding of a case ---- *)
 Definition as_tok (t : tree) : option tok :=
@@ -118,12 +125,12 @@ Definition of_exn (e : exn) : tree :=
 Definition styles : list style := [Qmark; Format; Numeric; NumericDollar; Named; Pyformat].
 
 (* input   L [toks; order; kinds; values; params]
-   output  L [ per style:  L [I 0; text; params]  |  L [I code] ] *)
+   output  L [ per style:  L [I 0; L [hash text; length text]; params]  |  L [I code] ] *)
 Definition run_with (tab : list (N * N)) (empty_expr : str) (t : tree) : tree :=
   match as_input t with
   | Some inp =>
       L (map (fun ps => match run tab lit_dec empty_expr ps inp with
-                        | Ok (ts, fp) => L [I 0%Z; of_str (text_of ps ts); of_fparams fp]
+                        | Ok (ts, fp) => L [I 0%Z; of_text (text_of ps ts); of_fparams fp]
                         | Raise e => of_exn e
                         end) styles)
   | None => bad_input
